@@ -518,7 +518,7 @@ theorem inv1_rdNext {s s' : St} {t r v : Nat} (h : Inv1 s) (hs : stepRdNext s t 
     · intro r' hr'
       rw [hch] at hr'
       exact h.b4 t r' (by simpa [hpc, pend] using hr')
-  · next c cap cur i pl walked hpc hv => exact h.frame (by frame1_tac t)
+  · next c h0 cap cur i pl walked hpc hv => exact h.frame (by frame1_tac t)
 
 theorem inv1_faddThr {s s' : St} {t r old op : Nat} (h : Inv1 s)
     (hs : stepFaddThr s t r old op = some s') : Inv1 s' := by
@@ -969,5 +969,956 @@ theorem inv1_step {s s' : St} {e : Ev} (h : Inv1 s) (hs : step s e = some s') : 
 
 theorem inv1_of_run {k : Nat} {es : List Ev} {s : St} (h : (sys k).run es = some s) : Inv1 s :=
   Sys.inv_of_run (sys k) Inv1 (inv1_init k) (fun _ _ _ hi hs => inv1_step hi hs) h
+
+/-! ## 4. the client protocol, the retired lists and the coverage of a scan (invariant `Inv2`) -/
+
+/-- the part of the old retired list a scanning thread still has to decide -/
+def Pc.todo : Pc → List Nat
+  | .scanDecide _ _ todo => todo
+  | .scanKeep _ _ n todo _ => n :: todo
+  | _ => []
+
+def NSt.live : NSt → Bool
+  | .inG | .unl _ | .retired _ => true
+  | _ => false
+
+/-- every validated protection of a node of `l` is accounted for by `P` -/
+def Covered (s : St) (l : List Nat) (P : Nat → Nat → Nat → Prop) : Prop :=
+  ∀ u j n, s.prot u j = n → n ≠ 0 → n ∈ l → P u j n
+
+/-- what must hold of thread `t` at program counter `p` -/
+def PcOk (s : St) (t : Nat) : Pc → Prop
+  | .xAlloc _ n => n ≠ 0 → s.ns n = .priv t
+  | .xDone old => old ≠ 0 → s.ns old = .unl t
+  | .acqCalled _ sl => sl < s.k
+  | .acqLoaded _ sl q => sl < s.k ∧ q ≠ 0
+  | .acqPublished _ sl q => sl < s.k ∧ q ≠ 0 ∧ s.hp t sl = q
+  | .acqFenced _ sl q => sl < s.k ∧ q ≠ 0 ∧ s.hp t sl = q
+  | .acqValidated sl q => q ≠ 0 ∧ s.prot t sl = q
+  | .acqUse sl q => q ≠ 0 ∧ s.prot t sl = q
+  | .relCalled sl => sl < s.k
+  | .scanHead _ h => h ≠ 0 ∧ h - 1 ∈ s.recs ∧ Covered s (s.rlist t) (fun u _ _ => u ∈ chain s h)
+  | .scanWalk _ _ _ cur i pl _ => ptrOk s cur ∧ i ≤ s.k ∧
+      Covered s (s.rlist t) (fun u j n => n ∈ pl ∨ (cur ≠ 0 ∧ (u ∈ s.older (cur - 1) ∨ (u = cur - 1 ∧ i ≤ j))))
+  | .scanDecide _ sp todo => Covered s todo (fun _ _ n => binarySearch sp n = true)
+  | .scanKeep _ sp _ todo _ => Covered s todo (fun _ _ n => binarySearch sp n = true)
+  | _ => True
+
+structure Loc (s : St) (t : Nat) (p : Pc) : Prop where
+  pcok : PcOk s t p
+  rl : ∀ n ∈ s.rlist t ++ p.todo, n ≠ 0 ∧ s.ns n = .retired t
+  rl_nd : (s.rlist t ++ p.todo).Nodup
+  prot_ok : ∀ j n, s.prot t j = n → n ≠ 0 →
+    s.hp t j = n ∧ j < s.k ∧ p.joined = true ∧ (s.ns n).live = true
+  hp0 : p.joined = false → ∀ j, s.hp t j = 0
+
+structure Inv2 (s : St) : Prop where
+  g_in : ∀ i, s.g i ≠ 0 → s.ns (s.g i) = .inG
+  g_inj : ∀ i j, s.g i = s.g j → s.g i ≠ 0 → i = j
+  loc : ∀ t, Loc s t (s.pc t)
+
+theorem inv2_init (k : Nat) : Inv2 (init k) := by
+  constructor
+  · simp [init]
+  · simp [init]
+  · intro t; constructor <;> simp [init, PcOk, Pc.todo, Pc.joined]
+
+/-- thread `t` moves to `p'` without touching its retired list or the shape of its todo list -/
+theorem Loc.move {s : St} {t : Nat} {p p' : Pc} (h : Loc s t p) (hpc : PcOk s t p')
+    (htodo : p'.todo = p.todo) (hj : p.joined = true → p'.joined = true)
+    (hj' : p'.joined = false → p.joined = false) : Loc s t p' := by
+  constructor
+  · exact hpc
+  · rw [htodo]; exact h.rl
+  · rw [htodo]; exact h.rl_nd
+  · intro j n h1 h2
+    obtain ⟨a, b, c, d⟩ := h.prot_ok j n h1 h2
+    exact ⟨a, b, hj c, d⟩
+  · intro h1; exact h.hp0 (hj' h1)
+
+/-- assembling `Inv2` after a step of thread `t` -/
+theorem Inv2.mk' {s s' : St} {t : Nat} {p' : Pc} (hpc : s'.pc = upd s.pc t p')
+    (hg1 : ∀ i, s'.g i ≠ 0 → s'.ns (s'.g i) = .inG) (hg2 : ∀ i j, s'.g i = s'.g j → s'.g i ≠ 0 → i = j)
+    (ht : Loc s' t p') (ho : ∀ u, u ≠ t → Loc s' u (s.pc u)) : Inv2 s' := by
+  refine ⟨hg1, hg2, ?_⟩
+  intro u
+  rw [hpc]
+  by_cases e : u = t
+  · subst e; rw [upd_same]; exact ht
+  · rw [upd_other _ _ _ _ e]; exact ho u e
+
+/-- `Loc` reads only these fields of the state -/
+theorem Loc.congr {s s' : St} {t : Nat} {p : Pc} (h : Loc s t p) (e1 : s'.ns = s.ns)
+    (e2 : s'.rlist t = s.rlist t) (e3 : s'.prot = s.prot) (e4 : s'.hp t = s.hp t) (e5 : s'.k = s.k)
+    (e6 : s'.recs = s.recs) (e7 : s'.older = s.older) : Loc s' t p := by
+  have hpc : PcOk s' t p = PcOk s t p := by
+    cases p <;> simp [PcOk, Covered, chain, ptrOk, e1, e2, e3, e4, e5, e6, e7]
+  constructor
+  · rw [hpc]; exact h.pcok
+  · rw [e1, e2]; exact h.rl
+  · rw [e2]; exact h.rl_nd
+  · rw [e1, e3, e4, e5]; exact h.prot_ok
+  · rw [e4]; exact h.hp0
+
+/-- a step that only moves the program counter of `t` (and possibly cells `Loc` does not read) -/
+theorem Inv2.step_pc {s s' : St} (h : Inv2 s) (t : Nat) (p' : Pc) (hpc : s'.pc = upd s.pc t p')
+    (eg : s'.g = s.g) (e1 : s'.ns = s.ns)
+    (e2 : s'.rlist = s.rlist) (e3 : s'.prot = s.prot) (e4 : s'.hp = s.hp) (e5 : s'.k = s.k)
+    (e6 : s'.recs = s.recs) (e7 : s'.older = s.older) (ht : Loc s t p') : Inv2 s' :=
+  Inv2.mk' (s := s) (t := t) (p' := p') hpc (by rw [eg, e1]; exact h.g_in) (by rw [eg]; exact h.g_inj)
+    (ht.congr e1 (by rw [e2]) e3 (by rw [e4]) e5 e6 e7)
+    (fun u _ => (h.loc u).congr e1 (by rw [e2]) e3 (by rw [e4]) e5 e6 e7)
+
+theorem Inv2.pending_ns {s : St} (h : Inv2 s) {u n : Nat} (hn : n ∈ s.rlist u ++ (s.pc u).todo) :
+    s.ns n = .retired u := ((h.loc u).rl n hn).2
+
+theorem Covered.mono_prot {s s' : St} {l : List Nat} {P : Nat → Nat → Nat → Prop}
+    (h : Covered s l P) (hp : ∀ u j, s'.prot u j = s.prot u j ∨ s'.prot u j = 0) : Covered s' l P := by
+  intro u j n h1 h2 h3
+  rcases hp u j with e | e
+  · exact h u j n (by rw [← e]; exact h1) h2 h3
+  · rw [e] at h1; exact absurd h1.symm h2
+
+theorem upd2_apply (f : Nat → Nat → Nat) (t i v a b : Nat) :
+    upd2 f t i v a b = if a = t ∧ b = i then v else f a b := by
+  simp only [upd2, upd]
+  by_cases h1 : a = t <;> by_cases h2 : b = i <;> simp [h1, h2]
+
+/-- S1: another thread (or the harness ghost) changes the life-cycle state of a node `n` that
+    `u` does not own -/
+theorem Loc.updNs {s s' : St} {u : Nat} {p : Pc} (h : Loc s u p) (n : Nat) (X : NSt)
+    (e1 : s'.ns = upd s.ns n X)
+    (e2 : s'.rlist u = s.rlist u) (e3 : s'.prot = s.prot) (e4 : s'.hp u = s.hp u) (e5 : s'.k = s.k)
+    (e6 : s'.recs = s.recs) (e7 : s'.older = s.older)
+    (hown : s.ns n ≠ .priv u ∧ s.ns n ≠ .unl u ∧ s.ns n ≠ .retired u)
+    (hlive : X.live = true ∨ ∀ j, s.prot u j = n → n = 0) : Loc s' u p := by
+  have hne : ∀ m Y, s.ns m = Y → (Y = .priv u ∨ Y = .unl u ∨ Y = .retired u) → s'.ns m = Y := by
+    intro m Y hm hY
+    have : m ≠ n := by
+      intro e; subst e; rw [hm] at hown
+      rcases hY with e | e | e <;> subst e <;> simp at hown
+    rw [e1, upd_other _ _ _ _ this]; exact hm
+  constructor
+  · have := h.pcok
+    cases p <;> simp only [PcOk, Covered, chain, ptrOk, e2, e3, e4, e5, e6, e7] at this ⊢ <;> try exact this
+    · next g m => intro h0; exact hne _ _ (this h0) (by simp)
+    · next m => intro h0; exact hne _ _ (this h0) (by simp)
+  · intro m hm
+    rw [e2] at hm
+    obtain ⟨a, b⟩ := h.rl m hm
+    exact ⟨a, hne _ _ b (by simp)⟩
+  · rw [e2]; exact h.rl_nd
+  · intro j m h1 h2
+    rw [e3] at h1
+    obtain ⟨a, b, c, d⟩ := h.prot_ok j m h1 h2
+    refine ⟨by rw [e4]; exact a, by rw [e5]; exact b, c, ?_⟩
+    rw [e1]
+    by_cases e : m = n
+    · subst e; rw [upd_same]
+      rcases hlive with hl | hl
+      · exact hl
+      · exact absurd (hl j h1) h2
+    · rw [upd_other _ _ _ _ e]; exact d
+  · intro hj j; rw [e4]; exact h.hp0 hj j
+
+/-- S1, general form: the life-cycle map changes, but not on nodes owned by `u`, and protected
+    nodes stay live -/
+theorem Loc.updNsGen {s s' : St} {u : Nat} {p : Pc} (h : Loc s u p)
+    (e2 : s'.rlist u = s.rlist u) (e3 : s'.prot = s.prot) (e4 : s'.hp u = s.hp u) (e5 : s'.k = s.k)
+    (e6 : s'.recs = s.recs) (e7 : s'.older = s.older)
+    (hne : ∀ m Y, s.ns m = Y → (Y = .priv u ∨ Y = .unl u ∨ Y = .retired u) → s'.ns m = Y)
+    (hlive : ∀ j m, s.prot u j = m → m ≠ 0 → (s.ns m).live = true → (s'.ns m).live = true) :
+    Loc s' u p := by
+  constructor
+  · have := h.pcok
+    cases p <;> simp only [PcOk, Covered, chain, ptrOk, e2, e3, e4, e5, e6, e7] at this ⊢ <;> try exact this
+    · next g m => intro h0; exact hne _ _ (this h0) (by simp)
+    · next m => intro h0; exact hne _ _ (this h0) (by simp)
+  · intro m hm
+    rw [e2] at hm
+    obtain ⟨a, b⟩ := h.rl m hm
+    exact ⟨a, hne _ _ b (by simp)⟩
+  · rw [e2]; exact h.rl_nd
+  · intro j m h1 h2
+    rw [e3] at h1
+    obtain ⟨a, b, c, d⟩ := h.prot_ok j m h1 h2
+    exact ⟨by rw [e4]; exact a, by rw [e5]; exact b, c, hlive j m h1 h2 d⟩
+  · intro hj j; rw [e4]; exact h.hp0 hj j
+
+/-- S2: thread `t ≠ u` overwrites one of its hazard slots; the new validated protection (if
+    any) is of a node that is still in a global cell -/
+theorem Loc.updProtOther {s s' : St} {u t : Nat} {p : Pc} (h : Loc s u p) (hut : u ≠ t) (sl q v : Nat)
+    (e1 : s'.ns = s.ns) (e2 : s'.rlist u = s.rlist u) (e3 : s'.prot = upd2 s.prot t sl q)
+    (e4 : s'.hp = upd2 s.hp t sl v) (e5 : s'.k = s.k) (e6 : s'.recs = s.recs) (e7 : s'.older = s.older)
+    (hq : q = 0 ∨ s.ns q = .inG) : Loc s' u p := by
+  have hprotu : s'.prot u = s.prot u := by rw [e3]; funext j; simp [upd2_apply, hut]
+  have hhpu : s'.hp u = s.hp u := by rw [e4]; funext j; simp [upd2_apply, hut]
+  have hcov : ∀ (l : List Nat) (P : Nat → Nat → Nat → Prop), (∀ n ∈ l, n ∈ s.rlist u ++ p.todo) →
+      Covered s l P → Covered s' l P := by
+    intro l P hl hc w j n h1 h2 h3
+    by_cases e : w = t ∧ j = sl
+    · obtain ⟨rfl, rfl⟩ := e
+      rw [e3, upd2_apply] at h1; simp at h1
+      subst h1
+      rcases hq with hq | hq
+      · exact absurd hq h2
+      · have := (h.rl _ (hl _ h3)).2
+        rw [hq] at this; cases this
+    · apply hc w j n _ h2 h3
+      rw [e3, upd2_apply, if_neg e] at h1
+      exact h1
+  constructor
+  · have := h.pcok
+    cases p <;> simp only [PcOk, chain, ptrOk, e1, e2, hprotu, hhpu, e5, e6, e7] at this ⊢ <;> try exact this
+    · next c hh => exact ⟨this.1, this.2.1, hcov _ _ (by intro n hn; simp [hn]) this.2.2⟩
+    · next c h0 cap cur i pl w => exact ⟨this.1, this.2.1, hcov _ _ (by intro n hn; simp [hn]) this.2.2⟩
+    · next c sp todo => exact hcov _ _ (by intro n hn; simp [Pc.todo, hn]) this
+    · next c sp n0 todo v0 => exact hcov _ _ (by intro n hn; simp [Pc.todo, hn]) this
+  · rw [e1, e2]; exact h.rl
+  · rw [e2]; exact h.rl_nd
+  · rw [e1, hprotu, hhpu, e5]; exact h.prot_ok
+  · rw [hhpu]; exact h.hp0
+
+/-- S3: a new record `t` is pushed -/
+theorem Loc.push {s s' : St} {u t : Nat} {p : Pc} (h : Loc s u p) (ht : t ∉ s.recs)
+    (e1 : s'.ns = s.ns) (e2 : s'.rlist u = s.rlist u) (e3 : s'.prot = s.prot)
+    (e4 : s'.hp u = s.hp u) (e5 : s'.k = s.k) (e6 : s'.recs = t :: s.recs)
+    (e7 : s'.older = upd s.older t s.recs) : Loc s' u p := by
+  have hold : ∀ w ∈ s.recs, s'.older w = s.older w := by
+    intro w hw
+    have : w ≠ t := by intro e; subst e; exact ht hw
+    rw [e7, upd_other _ _ _ _ this]
+  constructor
+  · have := h.pcok
+    cases p <;> simp only [PcOk, Covered, e1, e2, e3, e4, e5] at this ⊢ <;> try exact this
+    · next c hh =>
+      obtain ⟨a, b, c⟩ := this
+      refine ⟨a, by rw [e6]; simp [b], ?_⟩
+      simp only [chain, a, if_false, hold _ b] at c ⊢; exact c
+    · next c h0 cap cur i pl w =>
+      obtain ⟨a, b, c⟩ := this
+      refine ⟨?_, b, ?_⟩
+      · unfold ptrOk at a ⊢; rw [e6]
+        rcases a with a | a
+        · exact Or.inl a
+        · exact Or.inr (by simp [a])
+      · intro w j n h1 h2 h3
+        rcases c w j n h1 h2 h3 with c | ⟨c0, c⟩
+        · exact Or.inl c
+        · right; refine ⟨c0, ?_⟩
+          have : cur - 1 ∈ s.recs := by
+            rcases a with a | a
+            · exact absurd a c0
+            · exact a
+          rw [hold _ this]; exact c
+  · rw [e1, e2]; exact h.rl
+  · rw [e2]; exact h.rl_nd
+  · rw [e1, e3, e4, e5]; exact h.prot_ok
+  · rw [e4]; exact h.hp0
+
+/-! ### `Inv2` is preserved: steps that only move a program counter -/
+
+macro "pc_only" h2:ident "," t:term "," hpc:ident "," hl:ident : tactic => `(tactic| (
+  have $hl := ($h2).loc $t
+  rw [$hpc:ident] at $hl:ident
+  refine Inv2.step_pc $h2 $t _ rfl rfl rfl rfl rfl rfl rfl rfl rfl
+    (Loc.move $hl ?_ (by simp [Pc.todo]) (by simp [Pc.joined]) (by simp [Pc.joined]))))
+
+theorem Inv2.prot_recs {s : St} (h1 : Inv1 s) (h2 : Inv2 s) {u j n : Nat} (hp : s.prot u j = n)
+    (hn : n ≠ 0) : u ∈ s.recs := by
+  have := ((h2.loc u).prot_ok j n hp hn).2.2.1
+  rw [h1.pushed]; exact joined_pushed this
+
+theorem inv2_callJoin {s s' : St} {t : Nat} (h2 : Inv2 s) (hs : stepCallJoin s t = some s') : Inv2 s' := by
+  unfold stepCallJoin at hs
+  step_cases hs
+  next hpc => pc_only h2, t, hpc, hl; simp [PcOk]
+
+theorem inv2_retJoin {s s' : St} {t : Nat} (h2 : Inv2 s) (hs : stepRetJoin s t = some s') : Inv2 s' := by
+  unfold stepRetJoin at hs
+  step_cases hs
+  next hpc => pc_only h2, t, hpc, hl; simp [PcOk]
+
+theorem inv2_ldHead {s s' : St} {t v : Nat} (h1 : Inv1 s) (h2 : Inv2 s)
+    (hs : stepLdHead s t v = some s') : Inv2 s' := by
+  unfold stepLdHead at hs
+  step_cases hs
+  · next hpc hv => pc_only h2, t, hpc, hl; simp [PcOk]
+  · next c hpc hv =>
+    obtain ⟨rfl, h0⟩ := hv
+    pc_only h2, t, hpc, hl
+    simp only [PcOk]
+    refine ⟨h0, ?_, ?_⟩
+    · rcases h1.head_ok with e | e
+      · exact absurd e h0
+      · exact e
+    · intro u j n hp hn _
+      rw [← h1.hd]; exact h2.prot_recs h1 hp hn
+
+theorem inv2_wrNext {s s' : St} {t r v : Nat} (h2 : Inv2 s) (hs : stepWrNext s t r v = some s') : Inv2 s' := by
+  unfold stepWrNext at hs
+  step_cases hs
+  next ch hpc hv => pc_only h2, t, hpc, hl; simp [PcOk]
+
+theorem inv2_stThr {s s' : St} {t r v : Nat} (h2 : Inv2 s) (hs : stepStThr s t r v = some s') : Inv2 s' := by
+  unfold stepStThr at hs
+  step_cases hs
+  next ch cur cnt hpc hv => pc_only h2, t, hpc, hl; simp [PcOk]
+
+theorem inv2_faddThr {s s' : St} {t r old op : Nat} (h2 : Inv2 s)
+    (hs : stepFaddThr s t r old op = some s') : Inv2 s' := by
+  unfold stepFaddThr at hs
+  step_cases hs
+  next cur hpc hv => pc_only h2, t, hpc, hl; simp [PcOk]
+
+theorem inv2_rdNext {s s' : St} {t r v : Nat} (h1 : Inv1 s) (h2 : Inv2 s)
+    (hs : stepRdNext s t r v = some s') : Inv2 s' := by
+  unfold stepRdNext at hs
+  step_cases hs
+  · next ch cur cnt hpc hv => pc_only h2, t, hpc, hl; simp [PcOk]
+  · next hpc hv => pc_only h2, t, hpc, hl; simp [PcOk]
+  · next cur hpc hv => pc_only h2, t, hpc, hl; simp [PcOk]
+  · next c h0 cap cur i pl walked hpc hv =>
+    obtain ⟨hc0, rfl, rfl, rfl⟩ := hv
+    pc_only h2, t, hpc, hl
+    obtain ⟨hok, _, hcov⟩ := hl.pcok
+    have hr : cur - 1 ∈ s.recs := by rcases hok with e | e; exact absurd e hc0; exact e
+    have hch := h1.nxt _ hr
+    simp only [PcOk]
+    refine ⟨h1.ptrOk_next hr, Nat.zero_le _, ?_⟩
+    intro u j n hp hn hm
+    rcases hcov u j n hp hn hm with e | ⟨_, e | ⟨_, e⟩⟩
+    · exact Or.inl e
+    · right
+      rw [← hch] at e
+      unfold chain at e
+      split at e
+      · simp at e
+      · next h0 =>
+        refine ⟨h0, ?_⟩
+        simp only [List.mem_cons] at e
+        rcases e with e | e
+        · exact Or.inr ⟨e, Nat.zero_le _⟩
+        · exact Or.inl e
+    · have := ((h2.loc u).prot_ok j n hp hn).2.1
+      omega
+
+theorem inv2_ldThr {s s' : St} {t r v : Nat} (h2 : Inv2 s) (hs : stepLdThr s t r v = some s') : Inv2 s' := by
+  unfold stepLdThr at hs
+  step_cases hs
+  · next hpc hv hle => pc_only h2, t, hpc, hl; simp [PcOk]
+  · next hpc hv hle => pc_only h2, t, hpc, hl; simp [PcOk]
+  · next c h hpc hv =>
+    pc_only h2, t, hpc, hl
+    obtain ⟨h0, hr, hcov⟩ := hl.pcok
+    simp only [PcOk]
+    refine ⟨Or.inr hr, Nat.zero_le _, ?_⟩
+    intro u j n hp hn hm
+    have := hcov u j n hp hn hm
+    simp only [chain, h0, if_false, List.mem_cons] at this
+    right; refine ⟨h0, ?_⟩
+    rcases this with e | e
+    · exact Or.inr ⟨e, Nat.zero_le _⟩
+    · exact Or.inl e
+
+theorem inv2_rdRc {s s' : St} {t r v : Nat} (h2 : Inv2 s) (hs : stepRdRc s t r v = some s') : Inv2 s' := by
+  unfold stepRdRc at hs
+  step_cases hs
+  · next hpc hv => pc_only h2, t, hpc, hl; simp [PcOk]
+  · next c sp n todo hpc hv =>
+    pc_only h2, t, hpc, hl
+    have := hl.pcok
+    simp only [PcOk] at this ⊢
+    intro u j m hp hn hm
+    exact this u j m hp hn (by simp [hm])
+
+theorem inv2_rdHp {s s' : St} {t r i v : Nat} (h2 : Inv2 s) (hs : stepRdHp s t r i v = some s') : Inv2 s' := by
+  unfold stepRdHp at hs
+  step_cases hs
+  all_goals (
+    next c h0 cap cur j pl walked hpc hv _ =>
+    obtain ⟨hc0, hjk, rfl, rfl, rfl⟩ := hv
+    pc_only h2, t, hpc, hl
+    obtain ⟨hok, _, hcov⟩ := hl.pcok
+    simp only [PcOk]
+    refine ⟨hok, hjk, ?_⟩
+    intro u j' n hp hn hm
+    rcases hcov u j' n hp hn hm with e | ⟨_, e | ⟨e1, e2⟩⟩
+    · left; simp [e]
+    · exact Or.inr ⟨hc0, Or.inl e⟩
+    · by_cases ej : j' = i
+      · subst ej; subst e1
+        have := ((h2.loc _).prot_ok _ n hp hn).1
+        left; simp_all
+      · exact Or.inr ⟨hc0, Or.inr ⟨e1, by omega⟩⟩)
+
+theorem inv2_fence {s s' : St} {t : Nat} (h2 : Inv2 s) (hs : stepFence s t = some s') : Inv2 s' := by
+  unfold stepFence at hs
+  step_cases hs
+  next g sl p hpc => pc_only h2, t, hpc, hl; simpa [PcOk] using hl.pcok
+
+theorem inv2_validated {s s' : St} {t sl n : Nat} (h2 : Inv2 s) (hs : stepValidated s t sl n = some s') : Inv2 s' := by
+  unfold stepValidated at hs
+  step_cases hs
+  next sl' p hpc hv => obtain ⟨rfl, rfl⟩ := hv; pc_only h2, t, hpc, hl; simpa [PcOk] using hl.pcok
+
+theorem inv2_use {s s' : St} {t sl n : Nat} (h2 : Inv2 s) (hs : stepUse s t sl n = some s') : Inv2 s' := by
+  unfold stepUse at hs
+  step_cases hs
+  · next sl' p hpc hv => pc_only h2, t, hpc, hl; simp [PcOk]
+  · exact h2
+
+theorem inv2_retAcq {s s' : St} {t n : Nat} (h2 : Inv2 s) (hs : stepRetAcq s t n = some s') : Inv2 s' := by
+  unfold stepRetAcq at hs
+  step_cases hs
+  next p hpc hv => pc_only h2, t, hpc, hl; simp [PcOk]
+
+theorem inv2_callAcq {s s' : St} {t g sl : Nat} (h2 : Inv2 s) (hs : stepCallAcq s t g sl = some s') : Inv2 s' := by
+  unfold stepCallAcq at hs
+  step_cases hs
+  next hpc hv => pc_only h2, t, hpc, hl; simpa [PcOk] using hv
+
+theorem inv2_callRel {s s' : St} {t sl : Nat} (h2 : Inv2 s) (hs : stepCallRel s t sl = some s') : Inv2 s' := by
+  unfold stepCallRel at hs
+  step_cases hs
+  next hpc hv => pc_only h2, t, hpc, hl; simpa [PcOk] using hv
+
+theorem inv2_retRel {s s' : St} {t : Nat} (h2 : Inv2 s) (hs : stepRetRel s t = some s') : Inv2 s' := by
+  unfold stepRetRel at hs
+  step_cases hs
+  next hpc => pc_only h2, t, hpc, hl; simp [PcOk]
+
+theorem inv2_callX {s s' : St} {t g : Nat} (h2 : Inv2 s) (hs : stepCallX s t g = some s') : Inv2 s' := by
+  unfold stepCallX at hs
+  step_cases hs
+  next hpc => pc_only h2, t, hpc, hl; simp [PcOk]
+
+theorem inv2_retRetire {s s' : St} {t : Nat} (h2 : Inv2 s) (hs : stepRetRetire s t = some s') : Inv2 s' := by
+  unfold stepRetRetire at hs
+  step_cases hs
+  · next hpc => pc_only h2, t, hpc, hl; simp [PcOk]
+  · next sp hpc => pc_only h2, t, hpc, hl; simp [PcOk]
+
+theorem inv2_rcNote {s s' : St} {t r v : Nat} (h2 : Inv2 s) (hs : stepRcNote s t r v = some s') : Inv2 s' := by
+  unfold stepRcNote at hs
+  step_cases hs
+  · next hpc hv => pc_only h2, t, hpc, hl; simp [PcOk]
+  · next hpc hv => pc_only h2, t, hpc, hl; simp [PcOk]
+
+theorem inv2_retX {s s' : St} {t : Nat} (h2 : Inv2 s) (hs : stepRetX s t = some s') : Inv2 s' := by
+  unfold stepRetX at hs
+  step_cases hs
+  · next hpc => pc_only h2, t, hpc, hl; simp [PcOk]
+  · next hpc => pc_only h2, t, hpc, hl; simp [PcOk]
+
+theorem inv2_callScan {s s' : St} {t : Nat} (h2 : Inv2 s) (hs : stepCallScan s t = some s') : Inv2 s' := by
+  unfold stepCallScan at hs
+  step_cases hs
+  next hpc => pc_only h2, t, hpc, hl; simp [PcOk]
+
+theorem inv2_retScan {s s' : St} {t : Nat} (h2 : Inv2 s) (hs : stepRetScan s t = some s') : Inv2 s' := by
+  unfold stepRetScan at hs
+  step_cases hs
+  next sp hpc => pc_only h2, t, hpc, hl; simp [PcOk]
+
+/-! ### `Inv2` is preserved: steps that change ghost state or slots -/
+
+theorem inv2_casHead {s s' : St} {t found exp des : Nat} {ok : Bool} (h1 : Inv1 s) (h2 : Inv2 s)
+    (hs : stepCasHead s t found exp des ok = some s') : Inv2 s' := by
+  unfold stepCasHead at hs
+  step_cases hs
+  · next ch hpc hv hok =>
+    have ht : t ∉ s.recs := by rw [h1.pushed, hpc]; simp [Pc.pushed]
+    have hl := h2.loc t
+    rw [hpc] at hl
+    refine Inv2.mk' (s := s) (t := t) (p' := .joinPushed) rfl h2.g_in h2.g_inj ?_ ?_
+    · have := hl.move (p' := .joinPushed) (by simp [PcOk]) (by simp [Pc.todo]) (by simp [Pc.joined])
+        (by simp [Pc.joined])
+      exact this.push ht rfl rfl rfl rfl rfl rfl rfl
+    · intro u _; exact (h2.loc u).push ht rfl rfl rfl rfl rfl rfl rfl
+  · next ch hpc hv hok => pc_only h2, t, hpc, hl; simp [PcOk]
+
+theorem inv2_wrRc {s s' : St} {t r v : Nat} (h2 : Inv2 s) (hs : stepWrRc s t r v = some s') : Inv2 s' := by
+  unfold stepWrRc at hs
+  step_cases hs
+  · next v0 hpc hv => pc_only h2, t, hpc, hl; simp [PcOk]
+  · next c h0 cap cur i pl walked hpc hv =>
+    obtain ⟨rfl, rfl, rfl⟩ := hv
+    have hl := h2.loc r
+    rw [hpc] at hl
+    refine Inv2.mk' (s := s) (t := r) (p' := .scanDecide c (isort pl) (s.rlist r)) rfl h2.g_in h2.g_inj ?_ ?_
+    · obtain ⟨_, _, hcov⟩ := hl.pcok
+      constructor
+      · simp only [PcOk]
+        intro u j n hp hn hm
+        rcases hcov u j n hp hn hm with e | ⟨e, _⟩
+        · exact (binarySearch_isort pl n).mpr e
+        · exact absurd rfl e
+      · intro n hn
+        have : n ∈ s.rlist r ++ (Pc.scanWalk c h0 cap 0 i pl walked).todo := by
+          simpa [Pc.todo, upd] using hn
+        exact hl.rl n this
+      · have := hl.rl_nd
+        simpa [Pc.todo, upd] using this
+      · exact hl.prot_ok
+      · simp [Pc.joined]
+    · intro u hu
+      exact (h2.loc u).congr rfl (by simp [upd, hu]) rfl rfl rfl rfl rfl
+  · next c sp n todo v0 hpc hv =>
+    obtain ⟨rfl, rfl⟩ := hv
+    have hl := h2.loc r
+    rw [hpc] at hl
+    refine Inv2.mk' (s := s) (t := r) (p' := .scanDecide c sp todo) rfl h2.g_in h2.g_inj ?_ ?_
+    · constructor
+      · exact hl.pcok
+      · intro m hm
+        apply hl.rl m
+        simp only [upd_same, Pc.todo, List.mem_append, List.mem_cons] at hm ⊢
+        rcases hm with (hm | hm) | hm <;> simp [hm]
+      · have := hl.rl_nd
+        simp only [upd_same, Pc.todo] at this ⊢
+        exact (List.perm_middle.nodup_iff).mp this
+      · exact hl.prot_ok
+      · simp [Pc.joined]
+    · intro u hu
+      exact (h2.loc u).congr rfl (by simp [upd, hu]) rfl rfl rfl rfl rfl
+
+theorem inv2_reclaim {s s' : St} {t n : Nat} (h2 : Inv2 s) (hs : stepReclaim s t n = some s') : Inv2 s' := by
+  unfold stepReclaim at hs
+  step_cases hs
+  next c sp m todo hpc hv =>
+  obtain ⟨rfl, hbs⟩ := hv
+  have hl := h2.loc t
+  rw [hpc] at hl
+  have hmem : n ∈ s.rlist t ++ (Pc.scanDecide c sp (n :: todo)).todo := by simp [Pc.todo]
+  obtain ⟨hn0, hnr⟩ := hl.rl n hmem
+  -- the coverage invariant: nobody holds a validated protection of `n`
+  have key : ∀ u j, s.prot u j = n → n = 0 := by
+    intro u j hp
+    have : binarySearch sp n = true := hl.pcok u j n hp hn0 (by simp)
+    rw [hbs] at this; cases this
+  refine Inv2.mk' (s := s) (t := t) (p' := .scanDecide c sp todo) rfl ?_ h2.g_inj ?_ ?_
+  · intro i hi
+    have := h2.g_in i hi
+    have hne : s.g i ≠ n := by intro e; rw [e, hnr] at this; cases this
+    show upd s.ns n .free (s.g i) = _
+    rw [upd_other _ _ _ _ hne]; exact this
+  · have hnd := hl.rl_nd
+    simp only [Pc.todo] at hnd
+    have hnd' : (n :: (s.rlist t ++ todo)).Nodup := (List.perm_middle.nodup_iff).mp hnd
+    rw [List.nodup_cons] at hnd'
+    constructor
+    · intro u j m hp hm hmt
+      exact hl.pcok u j m hp hm (by simp [hmt])
+    · intro m hm
+      have hne : m ≠ n := by intro e; subst e; exact hnd'.1 (by simpa [Pc.todo] using hm)
+      obtain ⟨a, b⟩ := hl.rl m (by
+        simp only [Pc.todo, List.mem_append, List.mem_cons] at hm ⊢
+        rcases hm with hm | hm <;> simp [hm])
+      refine ⟨a, ?_⟩
+      show upd s.ns n .free m = _
+      rw [upd_other _ _ _ _ hne]; exact b
+    · simpa [Pc.todo] using hnd'.2
+    · intro j m hp hm
+      obtain ⟨a, b, _, d⟩ := hl.prot_ok j m hp hm
+      refine ⟨a, b, by simp [Pc.joined], ?_⟩
+      have hne : m ≠ n := by intro e; subst e; exact hm (key t j hp)
+      show (upd s.ns n .free m).live = true
+      rw [upd_other _ _ _ _ hne]; exact d
+    · simp [Pc.joined]
+  · intro u hu
+    refine (h2.loc u).updNs n .free rfl rfl rfl rfl rfl rfl rfl ?_ ?_
+    · rw [hnr]; simp; exact fun e => hu e.symm
+    · right; intro j hp; exact key u j hp
+
+theorem inv2_wrHp {s s' : St} {t r i v : Nat} (h2 : Inv2 s) (hs : stepWrHp s t r i v = some s') : Inv2 s' := by
+  unfold stepWrHp at hs
+  step_cases hs
+  · next g sl p hpc hv =>
+    obtain ⟨rfl, rfl, rfl⟩ := hv
+    have hl := h2.loc r
+    rw [hpc] at hl
+    refine Inv2.mk' (s := s) (t := r) (p' := .acqPublished g i v) rfl h2.g_in h2.g_inj ?_ ?_
+    · obtain ⟨a, b⟩ := hl.pcok
+      constructor
+      · exact ⟨a, b, by simp [upd2_apply]⟩
+      · exact hl.rl
+      · exact hl.rl_nd
+      · intro j n hp hn
+        change upd2 s.prot r i 0 r j = n at hp
+        rw [upd2_apply] at hp
+        split at hp
+        · exact absurd hp.symm hn
+        · next e =>
+          obtain ⟨a', b', c', d'⟩ := hl.prot_ok j n hp hn
+          refine ⟨?_, b', by simp [Pc.joined], d'⟩
+          show upd2 s.hp r i v r j = n
+          rw [upd2_apply, if_neg e]; exact a'
+      · simp [Pc.joined]
+    · intro u hu
+      exact (h2.loc u).updProtOther hu i 0 v rfl rfl rfl rfl rfl rfl rfl (Or.inl rfl)
+  · next sl hpc hv =>
+    obtain ⟨rfl, rfl, rfl⟩ := hv
+    have hl := h2.loc r
+    rw [hpc] at hl
+    refine Inv2.mk' (s := s) (t := r) (p' := .relDone) rfl h2.g_in h2.g_inj ?_ ?_
+    · constructor
+      · simp [PcOk]
+      · exact hl.rl
+      · exact hl.rl_nd
+      · intro j n hp hn
+        change upd2 s.prot r i 0 r j = n at hp
+        rw [upd2_apply] at hp
+        split at hp
+        · exact absurd hp.symm hn
+        · next e =>
+          obtain ⟨a', b', c', d'⟩ := hl.prot_ok j n hp hn
+          refine ⟨?_, b', by simp [Pc.joined], d'⟩
+          show upd2 s.hp r i 0 r j = n
+          rw [upd2_apply, if_neg e]; exact a'
+      · simp [Pc.joined]
+    · intro u hu
+      exact (h2.loc u).updProtOther hu i 0 0 rfl rfl rfl rfl rfl rfl rfl (Or.inl rfl)
+
+theorem inv2_ldG {s s' : St} {t g v : Nat} (h2 : Inv2 s) (hs : stepLdG s t g v = some s') : Inv2 s' := by
+  unfold stepLdG at hs
+  step_cases hs
+  · next g' sl hpc hv h0 => pc_only h2, t, hpc, hl; simp [PcOk]
+  · next g' sl hpc hv h0 => pc_only h2, t, hpc, hl; simpa [PcOk] using ⟨hl.pcok, h0⟩
+  · next g' sl p hpc hv hvp =>
+    obtain ⟨rfl, rfl⟩ := hv
+    have hl := h2.loc t
+    rw [hpc] at hl
+    obtain ⟨a, b, c⟩ := hl.pcok
+    have hin : s.ns p = .inG := by rw [← hvp]; exact h2.g_in g (by rw [hvp]; exact b)
+    refine Inv2.mk' (s := s) (t := t) (p' := .acqValidated sl p) rfl h2.g_in h2.g_inj ?_ ?_
+    · constructor
+      · exact ⟨b, by simp [upd2_apply]⟩
+      · exact hl.rl
+      · exact hl.rl_nd
+      · intro j n hp hn
+        change upd2 s.prot t sl p t j = n at hp
+        rw [upd2_apply] at hp
+        split at hp
+        · next e =>
+          obtain ⟨_, rfl⟩ := e
+          subst hp
+          exact ⟨c, a, by simp [Pc.joined], by rw [hin]; rfl⟩
+        · obtain ⟨a', b', c', d'⟩ := hl.prot_ok j n hp hn
+          exact ⟨a', b', by simp [Pc.joined], d'⟩
+      · simp [Pc.joined]
+    · intro u hu
+      have : s.hp = upd2 s.hp t sl (s.hp t sl) := by
+        funext a b; rw [upd2_apply]; split
+        · next e => rw [e.1, e.2]
+        · rfl
+      exact (h2.loc u).updProtOther hu sl p (s.hp t sl) rfl rfl rfl this rfl rfl rfl (Or.inr hin)
+  · next g' sl p hpc hv hvp => pc_only h2, t, hpc, hl; simpa [PcOk] using hl.pcok.1
+
+theorem inv2_alloc {s s' : St} {t n : Nat} (h2 : Inv2 s) (hs : stepAlloc s t n = some s') : Inv2 s' := by
+  unfold stepAlloc at hs
+  step_cases hs
+  · next g hpc h0 => pc_only h2, t, hpc, hl; simp [PcOk]
+  · next g hpc h0 hfree =>
+    have hl := h2.loc t
+    rw [hpc] at hl
+    have hlive : ∀ u j, s.prot u j = n → n = 0 := by
+      intro u j hp
+      apply Classical.byContradiction; intro hn
+      have := ((h2.loc u).prot_ok j n hp hn).2.2.2
+      rw [hfree] at this; cases this
+    refine Inv2.mk' (s := s) (t := t) (p' := .xAlloc g n) rfl ?_ h2.g_inj ?_ ?_
+    · intro i hi
+      have := h2.g_in i hi
+      have hne : s.g i ≠ n := by intro e; rw [e, hfree] at this; cases this
+      show upd s.ns n _ (s.g i) = _
+      rw [upd_other _ _ _ _ hne]; exact this
+    · refine Loc.move (p := .xCalled g) (hl.updNs n (.priv t) rfl rfl rfl rfl rfl rfl rfl ?_ ?_) ?_
+        (by simp [Pc.todo]) (by simp [Pc.joined]) (by simp [Pc.joined])
+      · rw [hfree]; simp
+      · right; intro j hp; exact hlive t j hp
+      · simp [PcOk]
+    · intro u _
+      refine (h2.loc u).updNs n (.priv t) rfl rfl rfl rfl rfl rfl rfl ?_ ?_
+      · rw [hfree]; simp
+      · right; intro j hp; exact hlive u j hp
+
+theorem inv2_callRetire {s s' : St} {t n : Nat} (h2 : Inv2 s) (hs : stepCallRetire s t n = some s') : Inv2 s' := by
+  unfold stepCallRetire at hs
+  step_cases hs
+  next old hpc hv =>
+  obtain ⟨rfl, h0⟩ := hv
+  have hl := h2.loc t
+  rw [hpc] at hl
+  have hunl : s.ns n = .unl t := hl.pcok h0
+  refine Inv2.mk' (s := s) (t := t) (p' := .freeCalled) rfl ?_ h2.g_inj ?_ ?_
+  · intro i hi
+    have := h2.g_in i hi
+    have hne : s.g i ≠ n := by intro e; rw [e, hunl] at this; cases this
+    show upd s.ns n _ (s.g i) = _
+    rw [upd_other _ _ _ _ hne]; exact this
+  · have hnot : n ∉ s.rlist t := by
+      intro hm
+      have := (hl.rl n (by simp [hm])).2
+      rw [hunl] at this; cases this
+    constructor
+    · simp [PcOk]
+    · intro m hm
+      simp only [upd_same, Pc.todo, List.append_nil, List.mem_cons] at hm
+      show m ≠ 0 ∧ upd s.ns n _ m = _
+      rcases hm with rfl | hm
+      · exact ⟨h0, by simp⟩
+      · have hne : m ≠ n := by intro e; subst e; exact hnot hm
+        rw [upd_other _ _ _ _ hne]
+        exact hl.rl m (by simp [hm])
+    · have := hl.rl_nd
+      simp only [upd_same, Pc.todo, List.append_nil] at this ⊢
+      exact List.nodup_cons.mpr ⟨hnot, this⟩
+    · intro j m hp hm
+      obtain ⟨a, b, _, d⟩ := hl.prot_ok j m hp hm
+      refine ⟨a, b, by simp [Pc.joined], ?_⟩
+      show (upd s.ns n _ m).live = true
+      by_cases e : m = n
+      · subst e; simp [NSt.live]
+      · rw [upd_other _ _ _ _ e]; exact d
+    · simp [Pc.joined]
+  · intro u hu
+    refine (h2.loc u).updNs n (.retired t) rfl ?_ rfl rfl rfl rfl rfl ?_ ?_
+    · show upd s.rlist t _ u = _
+      rw [upd_other _ _ _ _ hu]
+    · rw [hunl]; simp; exact fun e => hu e.symm
+    · left; rfl
+
+theorem inv2_xchgG {s s' : St} {t g old new : Nat} (h2 : Inv2 s)
+    (hs : stepXchgG s t g old new = some s') : Inv2 s' := by
+  unfold stepXchgG at hs
+  split at hs
+  case h_2 => simp at hs
+  next g' n hpc =>
+  split at hs
+  case isFalse => simp at hs
+  next hv =>
+  obtain ⟨rfl, rfl, rfl⟩ := hv
+  simp only [Option.some.injEq] at hs
+  have hl := h2.loc t
+  rw [hpc] at hl
+  have hpriv : new ≠ 0 → s.ns new = .priv t := hl.pcok
+  have hold : s.g g ≠ 0 → s.ns (s.g g) = .inG := h2.g_in g
+  have hno : new ≠ 0 → new ≠ s.g g := by
+    intro h0 e
+    have a := hpriv h0
+    have b := hold (by rw [← e]; exact h0)
+    rw [← e, a] at b; cases b
+  -- the new life-cycle map
+  generalize hN : (if s.g g = 0 then (if new = 0 then s.ns else upd s.ns new NSt.inG)
+      else upd (if new = 0 then s.ns else upd s.ns new NSt.inG) (s.g g) (NSt.unl t)) = N at hs
+  have hA : ∀ m Y, s.ns m = Y → Y ≠ .priv t → Y ≠ .inG → N m = Y := by
+    intro m Y hm h1 h2'
+    have hmn : new ≠ 0 → m ≠ new := by intro h0 e; subst e; rw [hpriv h0] at hm; exact h1 hm.symm
+    have hmo : s.g g ≠ 0 → m ≠ s.g g := by intro h0 e; rw [e, hold h0] at hm; exact h2' hm.symm
+    subst hN
+    by_cases e1 : s.g g = 0 <;> by_cases e2 : new = 0 <;> simp only [e1, e2, if_true, if_false]
+    · exact hm
+    · rw [upd_other _ _ _ _ (hmn e2)]; exact hm
+    · rw [upd_other _ _ _ _ (hmo e1)]; exact hm
+    · rw [upd_other _ _ _ _ (hmo e1), upd_other _ _ _ _ (hmn e2)]; exact hm
+  have hB : new ≠ 0 → N new = .inG := by
+    intro h0; subst hN
+    by_cases e1 : s.g g = 0 <;> simp only [e1, h0, if_true, if_false]
+    · simp
+    · rw [upd_other _ _ _ _ (hno h0)]; simp
+  have hC : s.g g ≠ 0 → N (s.g g) = .unl t := by
+    intro h0; subst hN; simp [h0]
+  have hE : ∀ m, s.ns m = .inG → m ≠ s.g g → N m = .inG := by
+    intro m hm hne
+    have hmn : new ≠ 0 → m ≠ new := by intro h0 e; subst e; rw [hpriv h0] at hm; cases hm
+    subst hN
+    by_cases e1 : s.g g = 0 <;> by_cases e2 : new = 0 <;> simp only [e1, e2, if_true, if_false]
+    · exact hm
+    · rw [upd_other _ _ _ _ (hmn e2)]; exact hm
+    · rw [upd_other _ _ _ _ hne]; exact hm
+    · rw [upd_other _ _ _ _ hne, upd_other _ _ _ _ (hmn e2)]; exact hm
+  have hD : ∀ m, (s.ns m).live = true → (N m).live = true := by
+    intro m hm
+    by_cases e1 : m = s.g g
+    · by_cases e0 : s.g g = 0
+      · subst hN; simp only [e0, if_true]
+        by_cases e2 : new = 0
+        · simp only [e2, if_true]; exact hm
+        · simp only [e2, if_false]
+          have : m ≠ new := by intro e; rw [e, hpriv e2] at hm; cases hm
+          rw [upd_other _ _ _ _ this]; exact hm
+      · rw [e1, hC e0]; rfl
+    · cases hx : s.ns m with
+      | free => rw [hx] at hm; cases hm
+      | priv w => rw [hx] at hm; cases hm
+      | inG => rw [hE m hx e1]; rfl
+      | unl w =>
+        by_cases ew : w = t
+        · subst ew
+          have hmn : new ≠ 0 → m ≠ new := by intro h0 e; subst e; rw [hpriv h0] at hx; cases hx
+          subst hN
+          by_cases e0 : s.g g = 0 <;> by_cases e2 : new = 0 <;> simp only [e0, e2, if_true, if_false]
+          · rw [hx]; rfl
+          · rw [upd_other _ _ _ _ (hmn e2), hx]; rfl
+          · rw [upd_other _ _ _ _ e1, hx]; rfl
+          · rw [upd_other _ _ _ _ e1, upd_other _ _ _ _ (hmn e2), hx]; rfl
+        · rw [hA m _ hx (by simp) (by simp)]; rfl
+      | retired w => rw [hA m _ hx (by simp) (by simp)]; rfl
+  subst hs
+  refine Inv2.mk' (s := s) (t := t) (p' := .xDone (s.g g)) rfl ?_ ?_ ?_ ?_
+  · intro i hi
+    change upd s.g g new i ≠ 0 at hi
+    show N (upd s.g g new i) = .inG
+    by_cases e : i = g
+    · subst e; rw [upd_same] at hi ⊢; exact hB hi
+    · rw [upd_other _ _ _ _ e] at hi ⊢
+      apply hE _ (h2.g_in i hi)
+      intro e'; exact e (h2.g_inj i g e' hi)
+  · intro i j hij hi
+    change upd s.g g new i = upd s.g g new j at hij
+    change upd s.g g new i ≠ 0 at hi
+    by_cases ei : i = g <;> by_cases ej : j = g
+    · rw [ei, ej]
+    · subst ei; rw [upd_same] at hij hi; rw [upd_other _ _ _ _ ej] at hij
+      have a := hpriv hi
+      have b := h2.g_in j (by rw [← hij]; exact hi)
+      rw [← hij, a] at b; cases b
+    · subst ej; rw [upd_same] at hij; rw [upd_other _ _ _ _ ei] at hij hi
+      have a := hpriv (by rw [← hij]; exact hi)
+      have b := h2.g_in i hi
+      rw [hij, a] at b; cases b
+    · rw [upd_other _ _ _ _ ei] at hij hi; rw [upd_other _ _ _ _ ej] at hij
+      exact h2.g_inj i j hij hi
+  · constructor
+    · exact hC
+    · intro m hm
+      obtain ⟨a, b⟩ := hl.rl m hm
+      exact ⟨a, hA m _ b (by simp) (by simp)⟩
+    · exact hl.rl_nd
+    · intro j m hp hm
+      obtain ⟨a, b, _, d⟩ := hl.prot_ok j m hp hm
+      exact ⟨a, b, by simp [Pc.joined], hD m d⟩
+    · simp [Pc.joined]
+  · intro u hu
+    refine (h2.loc u).updNsGen rfl rfl rfl rfl rfl rfl ?_ ?_
+    · intro m Y hm hY
+      apply hA m Y hm
+      · rcases hY with e | e | e <;> subst e <;> simp <;> exact hu
+      · rcases hY with e | e | e <;> subst e <;> simp
+    · intro j m _ _ hlv; exact hD m hlv
+
+theorem inv2_step {s s' : St} {e : Ev} (h1 : Inv1 s) (h2 : Inv2 s) (hs : step s e = some s') : Inv2 s' := by
+  cases e with
+  | callJoin t => exact inv2_callJoin h2 hs
+  | retJoin t => exact inv2_retJoin h2 hs
+  | ldHead t v => exact inv2_ldHead h1 h2 hs
+  | casHead t f e d ok => exact inv2_casHead h1 h2 hs
+  | wrNext t r v => exact inv2_wrNext h2 hs
+  | rdNext t r v => exact inv2_rdNext h1 h2 hs
+  | stThr t r v => exact inv2_stThr h2 hs
+  | ldThr t r v => exact inv2_ldThr h2 hs
+  | faddThr t r old op => exact inv2_faddThr h2 hs
+  | rdRc t r v => exact inv2_rdRc h2 hs
+  | wrRc t r v => exact inv2_wrRc h2 hs
+  | rdHp t r i v => exact inv2_rdHp h2 hs
+  | wrHp t r i v => exact inv2_wrHp h2 hs
+  | fence t => exact inv2_fence h2 hs
+  | ldG t g v => exact inv2_ldG h2 hs
+  | xchgG t g old new => exact inv2_xchgG h2 hs
+  | callAcq t g sl => exact inv2_callAcq h2 hs
+  | validated t sl n => exact inv2_validated h2 hs
+  | use t sl n => exact inv2_use h2 hs
+  | retAcq t n => exact inv2_retAcq h2 hs
+  | callRel t sl => exact inv2_callRel h2 hs
+  | retRel t => exact inv2_retRel h2 hs
+  | callX t g => exact inv2_callX h2 hs
+  | alloc t n => exact inv2_alloc h2 hs
+  | callRetire t n => exact inv2_callRetire h2 hs
+  | retRetire t => exact inv2_retRetire h2 hs
+  | rcNote t r v => exact inv2_rcNote h2 hs
+  | retX t => exact inv2_retX h2 hs
+  | callScan t => exact inv2_callScan h2 hs
+  | retScan t => exact inv2_retScan h2 hs
+  | reclaim t n => exact inv2_reclaim h2 hs
+
+theorem inv12_of_run {k : Nat} {es : List Ev} {s : St} (h : (sys k).run es = some s) : Inv1 s ∧ Inv2 s :=
+  Sys.inv_of_run (sys k) (fun s => Inv1 s ∧ Inv2 s) ⟨inv1_init k, inv2_init k⟩
+    (fun _ _ _ hi hs => ⟨inv1_step hi.1 hs, inv2_step hi.1 hi.2 hs⟩) h
+
+/-! ## 5. thresholds versus the number of participating records -/
+
+theorem Inv1.chain_nodup {s : St} (h : Inv1 s) {q : Nat} (hq : ptrOk s q) : (chain s q).Nodup := by
+  unfold chain
+  split
+  · simp
+  · next h0 =>
+    have hr : q - 1 ∈ s.recs := by rcases hq with e | e; exact absurd e h0; exact e
+    exact List.nodup_cons.mpr ⟨h.not_mem_older_self hr, h.old_nd _ hr⟩
+
+theorem Inv1.chain_sub {s : St} (h : Inv1 s) {q : Nat} (hq : ptrOk s q) : ∀ u ∈ chain s q, u ∈ s.recs := by
+  unfold chain
+  split
+  · simp
+  · next h0 =>
+    have hr : q - 1 ∈ s.recs := by rcases hq with e | e; exact absurd e h0; exact e
+    intro u hu
+    simp only [List.mem_cons] at hu
+    rcases hu with rfl | hu
+    · exact hr
+    · exact h.old_sub _ hr u hu
+
+/-- every record that has completed `create_and_push` is accounted for in the threshold of every
+    record in the list: `thr t ≥ 2·K·|L|` for each duplicate-free list `L` of such records -/
+theorem Inv1.thr_ge {s : St} (h : Inv1 s) {t : Nat} (ht : t ∈ s.recs) {L : List Nat} (hL : L.Nodup)
+    (hLj : ∀ j ∈ L, j ∈ s.recs ∧ (s.pc j).joined = true) : 2 * L.length * s.k ≤ s.thr t := by
+  have hsub : ∀ j ∈ L, j ∈ (t :: s.older t) ++ s.bumpedBy t := by
+    intro j hj
+    obtain ⟨hjr, hjj⟩ := hLj j hj
+    simp only [List.mem_append, List.mem_cons]
+    rcases h.tri j hjr t ht with e | e | e
+    · exact Or.inl (Or.inl e)
+    · exact Or.inl (Or.inr e)
+    · right
+      rcases h.b1 j hjr t e with hb | hb
+      · exact hb
+      · exact absurd hb (pend_joined hjj)
+  have := nodup_length_le hL hsub
+  simp only [List.length_append, List.length_cons] at this
+  rw [h.thr_eq t ht]
+  apply Nat.mul_le_mul_right
+  omega
+
+/-- … and no threshold exceeds `2·K·N` for the `N` records in the list -/
+theorem Inv1.thr_le {s : St} (h : Inv1 s) {t : Nat} (ht : t ∈ s.recs) : s.thr t ≤ 2 * s.recs.length * s.k := by
+  have hnd : ((t :: s.older t) ++ s.bumpedBy t).Nodup := by
+    rw [List.nodup_append]
+    refine ⟨List.nodup_cons.mpr ⟨h.not_mem_older_self ht, h.old_nd t ht⟩, h.b3 t, ?_⟩
+    intro a ha b hb e
+    subst e
+    obtain ⟨har, hta⟩ := h.b2 t a hb
+    simp only [List.mem_cons] at ha
+    rcases ha with rfl | ha
+    · exact h.not_mem_older_self har hta
+    · have := h.rank2 a har t hta
+      have := h.rank2 t ht a ha
+      omega
+  have hsub : ∀ x ∈ (t :: s.older t) ++ s.bumpedBy t, x ∈ s.recs := by
+    intro x hx
+    simp only [List.mem_append, List.mem_cons] at hx
+    rcases hx with (rfl | hx) | hx
+    · exact ht
+    · exact h.old_sub t ht x hx
+    · exact (h.b2 t x hx).1
+  have := nodup_length_le hnd hsub
+  simp only [List.length_append, List.length_cons] at this
+  rw [h.thr_eq t ht]
+  apply Nat.mul_le_mul_right
+  omega
+
+/-- when no `create_and_push` is in progress every threshold is exactly `2·N·K` -/
+theorem Inv1.thr_exact {s : St} (h : Inv1 s) (hall : ∀ j ∈ s.recs, (s.pc j).joined = true) {t : Nat}
+    (ht : t ∈ s.recs) : s.thr t = 2 * s.recs.length * s.k :=
+  Nat.le_antisymm (h.thr_le ht) (h.thr_ge ht h.nd (fun j hj => ⟨hj, hall j hj⟩))
 
 end LibfiberVerif.Hp
